@@ -109,9 +109,21 @@ func dischargeOne(vc *VC, cfg SolverCfg, idx int, o *Obligation) {
 		return p
 	}
 	fz := write(".z3.smt2", z3Header)
-	ctx, cancel := context.WithTimeout(context.Background(), time.Duration(cfg.FirstSecs+2)*time.Second)
-	r := runSolver(ctx, "z3-4.8.12", []string{"z3", fmt.Sprintf("-T:%d", cfg.FirstSecs)}, fz)
+	first := cfg.FirstSecs
+	if o.Cover {
+		// reachability checks only need "not provably unreachable"
+		first = 2
+	}
+	ctx, cancel := context.WithTimeout(context.Background(), time.Duration(first+2)*time.Second)
+	r := runSolver(ctx, "z3-4.8.12", []string{"z3", fmt.Sprintf("-T:%d", first)}, fz)
 	cancel()
+	if o.Cover {
+		o.Status, o.Solver, o.Secs, o.Output = r.status, r.name, r.secs, truncate(r.out, 200)
+		if !cfg.KeepFiles {
+			os.Remove(fz)
+		}
+		return
+	}
 	total := r.secs
 	outs := []solverRun{r}
 	if r.status != "unsat" && cfg.RaceSecs > 0 {
